@@ -10,6 +10,7 @@ RULE = ("op 0 = connection context (receive buffer None/0/small, send buffer 0/s
         "(receive overflow or send with drop), a recv that returned a payload and a write that emitted a frame")
 
 SHARD = 50
+TIMEOUT = 60     # seconds for the implementation run: a broken eviction loop in `received` spins forever
 
 
 def ctx(rng):
